@@ -1,3 +1,115 @@
-import MgModel.C05.TsPool
+import MgModel.C05.Client
+/-! Helper lemmas shared by the three pool proofs: what the client layer does to the ghost
+state, counting under a point update, index arithmetic of a power-of-two ring. -/
 namespace MgProof.C05
+open MgModel.Conc MgModel.C05
+
+/-! ## client layer -/
+
+theorem beginOp_owned (g : Ghost) (t cap : Nat) (op : Op) : (beginOp g t cap op).1.owned = g.owned := by
+  unfold beginOp; split <;> (try split) <;> rfl
+theorem beginOp_serial (g : Ghost) (t cap : Nat) (op : Op) : (beginOp g t cap op).1.serial = g.serial := by
+  unfold beginOp; split <;> (try split) <;> rfl
+theorem beginOp_nextSerial (g : Ghost) (t cap : Nat) (op : Op) :
+    (beginOp g t cap op).1.nextSerial = g.nextSerial := by
+  unfold beginOp; split <;> (try split) <;> rfl
+theorem beginOp_double (g : Ghost) (t cap : Nat) (op : Op) : (beginOp g t cap op).1.double = g.double := by
+  unfold beginOp; split <;> (try split) <;> rfl
+theorem beginOp_illegal (g : Ghost) (t cap : Nat) (op : Op) : (beginOp g t cap op).1.illegal = g.illegal := by
+  unfold beginOp; split <;> (try split) <;> rfl
+
+/-- an operation starts an allocation exactly when it is `a` or `p` -/
+theorem beginOp_alloc_iff (g : Ghost) (t cap : Nat) (op : Op) :
+    (∃ pb, (beginOp g t cap op).2 = .alloc pb) ↔ op.isAlloc = true := by
+  unfold beginOp; split <;> (try split) <;> simp [Op.isAlloc]
+
+theorem freeBegin_illegal_mono (sw : Bool) (g : Ghost) (t b : Nat) :
+    g.illegal ≤ (freeBegin sw g t b).1.illegal := by
+  unfold freeBegin; split <;> (try split) <;> simp
+
+/-- a free that keeps the history legal frees an owned block -/
+theorem freeBegin_legal {sw : Bool} {g : Ghost} {t b : Nat} (h : (freeBegin sw g t b).1.illegal = 0) :
+    g.owned b = true ∧ g.illegal = 0 := by
+  unfold freeBegin at h
+  split at h
+  · simp at h
+  · rename_i ho
+    refine ⟨by simpa using ho, ?_⟩
+    split at h <;> exact h
+
+theorem freeBegin_false_owned {g : Ghost} {t b : Nat} (h : g.owned b = true) :
+    (freeBegin false g t b).1.owned = upd g.owned b false ∧
+    (freeBegin false g t b).1.double = g.double ∧
+    (freeBegin false g t b).1.illegal = g.illegal ∧
+    (freeBegin false g t b).1.serial = g.serial ∧
+    (freeBegin false g t b).1.nextSerial = g.nextSerial := by
+  unfold freeBegin; simp [h]
+
+theorem allocDone_none (g : Ghost) (t : Nat) (pb : Bool) : (allocDone g t pb none).1 = g := rfl
+
+theorem allocDone_some (g : Ghost) (t : Nat) (pb : Bool) (b : Nat) :
+    (allocDone g t pb (some b)).1.owned = upd g.owned b true ∧
+    (allocDone g t pb (some b)).1.double = (if g.owned b then g.double + 1 else g.double) ∧
+    (allocDone g t pb (some b)).1.illegal = g.illegal ∧
+    (allocDone g t pb (some b)).1.serial = upd g.serial b g.nextSerial ∧
+    (allocDone g t pb (some b)).1.nextSerial = g.nextSerial + 1 := by
+  unfold allocDone; cases pb <;> simp
+
+/-! ## counting under a point update -/
+
+theorem countP_range_upd {α : Type} (p : α → Bool) (f : Nat → α) (b : Nat) (v : α) (n : Nat) (hb : b < n) :
+    (List.range n).countP (fun i => p (upd f b v i)) + (if p (f b) then 1 else 0)
+      = (List.range n).countP (fun i => p (f i)) + (if p v then 1 else 0) := by
+  induction n with
+  | zero => omega
+  | succ n ih =>
+    simp only [List.range_succ, List.countP_append, List.countP_cons, List.countP_nil]
+    by_cases hbn : b = n
+    · subst hbn
+      have hsame : (List.range b).countP (fun i => p (upd f b v i)) = (List.range b).countP (fun i => p (f i)) := by
+        apply List.countP_congr
+        intro i hi
+        have : i ≠ b := by have := List.mem_range.mp hi; omega
+        simp [upd, this]
+      simp only [hsame, upd_same]
+      omega
+    · have hlt : b < n := by omega
+      have := ih hlt
+      have hn : upd f b v n = f n := by simp [upd]; omega
+      simp only [hn]
+      omega
+
+theorem countP_range_le (p : Nat → Bool) (n : Nat) : (List.range n).countP p ≤ n := by
+  have := List.countP_le_length (p := p) (l := List.range n)
+  simpa using this
+
+/-- if some index below `n` fails `p`, fewer than `n` indices satisfy it -/
+theorem countP_range_lt (p : Nat → Bool) (n b : Nat) (hb : b < n) (hp : p b = false) :
+    (List.range n).countP p < n := by
+  induction n with
+  | zero => omega
+  | succ n ih =>
+    simp only [List.range_succ, List.countP_append, List.countP_cons, List.countP_nil]
+    by_cases hbn : b = n
+    · subst hbn
+      have := countP_range_le p b
+      simp [hp]; omega
+    · have := ih (by omega)
+      split <;> omega
+
+/-! ## ring index arithmetic -/
+
+/-- `i & (cap - 1) = i % cap` for a power of two -/
+theorem ringIdx_eq_mod (i k : Nat) : ringIdx i (2 ^ k) = i % 2 ^ k := by
+  unfold ringIdx
+  exact Nat.and_two_pow_sub_one_eq_mod i k
+
+/-- successor in a power-of-two ring, without `%` -/
+theorem ringIdx_succ {i k : Nat} (h : i < 2 ^ k) :
+    ringIdx (i + 1) (2 ^ k) = if i + 1 = 2 ^ k then 0 else i + 1 := by
+  rw [ringIdx_eq_mod]
+  split
+  · rename_i he; rw [he]; exact Nat.mod_self _
+  · exact Nat.mod_eq_of_lt (by omega)
+
 end MgProof.C05
